@@ -132,7 +132,7 @@ Start(c) ==
   /\ kat = {<<"Q", sg, "Q", <<>>>> : sg \in {j \in DOMAIN Catalog[c.e].sgs : HasName(Catalog[c.e].sgs[j].types, "Query")}}
 \* (mutations have effects, which this model does not describe: queries only)
 FedInit ==
-  \E e \in DOMAIN Catalog : \E u \in DOMAIN Catalog[e].universes : \E i \in {j \in DOMAIN Catalog[e].ops : Catalog[e].ops[j].doc.op = "query"} :
+  \E e \in DOMAIN Catalog : \E u \in DOMAIN Catalog[e].universes : \E i \in {j \in DOMAIN Catalog[e].ops : Catalog[e].ops[j].doc.op = "query" /\ ~Catalog[e].ops[j].nomodel} :
      Start([e |-> e, u |-> u, i |-> i, doc |-> Catalog[e].ops[i].doc, vars |-> Catalog[e].ops[i].vars])
 \* negative control: a universe whose keys are NOT unique (two users share an id)
 NegInit == \E i \in DOMAIN Catalog[1].ops : Start([e |-> 1, u |-> 0, i |-> i, doc |-> Catalog[1].ops[i].doc, vars |-> Catalog[1].ops[i].vars])
